@@ -379,6 +379,10 @@ pub async fn plan_compaction(""", expect="mutator:dataset::optimize::drop_old_fi
                 update_mode,
             } => pb::transaction::Operation::Update(pb::transaction::Update {
                 fields_modified: vec![],""", expect="Update.fields_modified"),
+    dict(name="c01_unfinished_file_named", prop="C01", file="rust/lance/src/dataset/write.rs", what="a failed file finish still yields a data-file descriptor",
+         old="        let num_rows = self.writer.finish().await? as u32;",
+         new="        let num_rows = self.writer.finish().await.unwrap_or(0) as u32;",
+         expect="DOM-data-closed|V2WriterAdapter"),
     # ------------------------------------------------------------------ C42
     dict(name="c42_absolute_data_path", prop="C42", file="rust/lance/src/dataset/write.rs", what="data files recorded with their full path",
          old="""        let writer_adapter = V2WriterAdapter {
